@@ -108,6 +108,30 @@ CHECKS = {
 }
 NOT_YET = "check not built yet in this session (work in progress; see DESIGN.md §5 for the planned bounded-exhaustive check)"
 
+# families added after the selftest and the three rounds of independently seeded changes (DESIGN.md §0.6, §0.7)
+EXTRA = {
+ "C01": "every like pattern <=5 components over {*,a,b} x strings <=7 and over {*,a,é,😀} x strings <=5; sets/records of 0..257 members",
+ "C02": "every list of 1..3 when/unless clauses over 6 bodies (alone and against an opponent); 0..33 policies of each class; the batch seam compares the error set too",
+ "C03": "node ids shared across entity types; parametric larger shapes (chains <=12 with every back edge and an absent node, fans <=20, layered diamonds <=6)",
+ "C04": "lists of 1..3 when/unless clauses; set/record literals of 1..200 operands with one non-constant operand",
+ "C05": "19 policies incl. if-then-else / || / has / literals from request parts; templates with 2..5 variables, value lists of 9..40, three levels of nesting",
+ "C06": "26 partial environments (unknowns nested three levels; unknown + ignored parts together); lists of 1..3 clauses",
+ "C07": "six layouts incl. empty and adjacent line comments; duplicate keys spelled through escapes",
+ "C08": "arithmetic trees of 2..3 operators over extreme longs; literals of 1000..9000 characters; every Unicode scalar in the quick tier",
+ "C09": "hand-written JSON like-patterns the encoder never writes; decoding into populated cedar.Policy / ast.Policy receivers",
+ "C10": "every Unicode scalar through decoders then all encoders; stall detector (a non-returning case is confirmed in fresh subprocesses and reported as hang / stack-overflow)",
+ "C11": "containers of 0..257 members in three insertion orders; internal/mapset and EntityUIDSet against a Go-map model; degenerate initial states (empty, nil, single) of the immutability BFS; decoding into used receivers",
+ "C12": "every year in [-820,820] (thorough +-2420) x month ends; durations with every unit at its own maximum +-1; all scalars through String/Set/Record renderings",
+ "C13": "extension- and entity-typed tags of attribute-less entities; decoding into used receivers; member names of the escapes spelled with \\uXXXX",
+ "C14": "workloads: multi-parent hierarchies, evaluator errors over sets, batch with colliding set members",
+ "C15": "entity-type unions; guards across when/unless clauses; action-in guards over sets mixing literals and non-literals",
+ "C16": "common types across two namespaces; C15's whole policy space + 3-element sets over union types through Validator.Policy (totality); stall detector",
+ "C17": "bare Action:: parents from inside a namespace; declared-but-empty namespaces; attribute types nested 20 deep; decoding into a populated Schema",
+ "C18": "single tokens / comments / whitespace runs of 1000..3100 bytes spanning several refills",
+ "C19": "shared schema with an action group and a 3-entry action list (spare slice capacity is part of the digest)",
+ "C20": "an All() sequence kept across later operations",
+}
+
 def main():
     checks = []
     for pid in ALL:
@@ -120,7 +144,7 @@ def main():
             "evidence_file": f"evidence/{pid}.json",
             "replay_cmd_template": f"./check {pid} --replay {{path}}",
             "engine": "mc",
-            "level_claimed": {"category": "model_checking", "text": c["text"], "design_ref": c["ref"]},
+            "level_claimed": {"category": "model_checking", "text": c["text"] + (" Added after the seeded-change rounds: " + EXTRA[pid] + "." if pid in EXTRA else ""), "design_ref": c["ref"]},
             "level_note": c["note"],
             "technique": c["tech"],
         })
